@@ -74,3 +74,18 @@ Definition probe_let (e1 e2 : pexpr) (envs : list (list val)) :=
    corner e1 || corner e2,
    map (fun env => ship (match eval_doc env e1 with Some v => eval_doc (firstn 3 (env ++ [VNull; VNull; VNull]) ++ [v]) e2 | None => None end)) envs,
    ((rq_ser (resolve e1), rq_ser r1), (rq_ser (resolve e2), rq_ser (normalize (resolve e2))))).   (* the two computes of the RQ *)
+
+(* an f-string `f"..{x}.."` (parts: text | column index) in `derive d = e1 | select {v = f"..."}`: lowering.rs folds the
+   parts left to right with std.concat (an empty f-string is the empty string literal); column 3 is d, inlined by the SQL
+   generator as in probe_let *)
+Definition fstr_part (q : str + nat) : rexpr := match q with inl s => RLit (LStr s) | inr i => RCol i end.
+Definition fstr_rq (parts : list (str + nat)) : rexpr :=
+  match parts with
+  | [] => RLit (LStr [])
+  | q :: t => fold_left (fun acc x => ROp n_concat [acc; fstr_part x]) t (fstr_part q)
+  end.
+Definition probe_fstr (e1 : pexpr) (parts : list (str + nat)) :=
+  let r1 := normalize (resolve e1) in
+  let r := rsubst 3 r1 (fstr_rq parts) in
+  (inlinable r1, [probe_call_dialect d_sqlite r; probe_call_dialect d_generic r],
+   (rq_ser (resolve e1), rq_ser (fstr_rq parts)), [dialect_has_concat d_sqlite; dialect_has_concat d_generic]).
